@@ -17,7 +17,7 @@ m = {"version": 1,
                "baseline_off_cmd": "cd /repo && /venv/bin/python -m pytest -ra -q -p no:cacheprovider --timeout=900 --continue-on-collection-errors",
                "source_commits": [], "add_only": True},
      "engines": [{"name": "lean-model+tie", "path": "check", "serves_properties": sorted(built),
-                  "kind_free_text": "Lean 4 theorems over an executable model (lean/CKT), tied to /repo's working tree by a differential correspondence harness (harness/); axioms audited per run"}],
+                  "kind_free_text": "Lean 4 theorems over an executable model (lean/CKT), tied to /repo's working tree by translators that regenerate parts of the model from the Python source on every run (harness/translate -> lean/CKT/Generated, with Lean theorems that the hand-written model functions are the translated code) and by a differential correspondence harness (harness/); axioms audited per run"}],
      "checks": [], "notes": "see DESIGN.md; KNOWN_FINDINGS.json lists recorded / fixed defects", "not_applicable": []}
 for p in props:
     pid = p["id"]
